@@ -778,7 +778,7 @@ def run_session(case, async_stop=False):
 
     req_src = []             # for every model 'req' event: index of the case event it came from
 
-    def do_request(ev, idx, before, sock=None, src=None):
+    def do_request(ev, idx, before, sock=None, src=None, ph=None):
         req_src.append(idx if src is None else src)
         raw, hdrs = build_raw(ev)
         body = unb64(ev['body'])
@@ -811,7 +811,17 @@ def run_session(case, async_stop=False):
             # Server and Date values are made by http.server: inputs of the model's wire form
             mreq['server'] = common.cps(hget(rsp['headers'], 'Server') or '')
             mreq['date'] = common.cps(hget(rsp['headers'], 'Date') or '')
-        model_events.append(mreq)
+        mreq['_src'] = idx if src is None else src
+        mreq['cid'] = len(model_events) + 1 if ph is None else ph['cid']
+        if ph is None:
+            model_events.append(mreq)
+        else:
+            # a stalled peer: the connection event stands where the peer connected, the answer where it gave up
+            ph.update(mreq)
+            ph['stall'] = True
+            model_events.append({'ev': 'shut', 'cid': ph['cid'], 'server': mreq.get('server'), 'date': mreq.get('date'),
+                                 'k': mreq.get('k'), '_src': mreq['_src'], 'method': mreq['method'],
+                                 'headers': mreq['headers']})
         # ---- canonical real observation
         if rsp is None:
             real_obs.append({'dropped': exc or problem})
@@ -861,13 +871,16 @@ def run_session(case, async_stop=False):
                 # a peer that announces more octets than it sends and keeps the connection open: its handler
                 # waits; every OTHER request must still be answered meanwhile
                 raw_s, _ = build_raw(ev['spec'])
-                pending.append((ev['spec'], idx, open_send(sess.port, raw_s)))
+                ph = {'ev': 'req', 'cid': len(model_events) + 1}
+                model_events.append(ph)
+                real_obs.append(None)
+                pending.append((ev['spec'], idx, open_send(sess.port, raw_s), ph))
                 count('ev:stall')
                 continue
             if ev['ev'] == 'unstall':
                 while pending:
-                    spec_s, idx_s, sock_s = pending.pop(0)
-                    do_request(spec_s, idx, sess.entered, sock=sock_s, src=idx_s)
+                    spec_s, idx_s, sock_s, ph_s = pending.pop(0)
+                    do_request(spec_s, idx, sess.entered, sock=sock_s, src=idx_s, ph=ph_s)
                 continue
             if ev['ev'] == 'raw':
                 nexc = len(_handler_excs)
@@ -889,12 +902,15 @@ def run_session(case, async_stop=False):
             do_request(ev, idx, before)
         # the stalled peers give up sending (half-close): their handlers must now answer like for any short body
         while pending:
-            spec_s, idx_s, sock_s = pending.pop(0)
+            spec_s, idx_s, sock_s, ph_s = pending.pop(0)
             if state.get('abort'):
                 if sock_s is not None:
                     sock_s.close()
+                i_ph = next(i for i, e in enumerate(model_events) if e is ph_s)
+                del model_events[i_ph]
+                del real_obs[i_ph]      # the two lists stay aligned
                 continue
-            do_request(spec_s, idx_s, sess.entered, sock=sock_s, src=idx_s)
+            do_request(spec_s, idx_s, sess.entered, sock=sock_s, src=idx_s, ph=ph_s)
         # ---- end of history: every acknowledged indication delivered exactly once, in order, unchanged
         sess.open_gates()
         ok = state.get('abort') or sess.settle(state['accepted'])
@@ -1075,6 +1091,98 @@ def text_cases(rng, n):
     return out
 
 
+RL_METHODS = ['POST', 'GET', 'HEAD', 'FOO', 'M_POST', 'post', 'OPTIONS', 'P\xd6ST', 'PUT']
+RL_TARGETS = ['/', '*', '//x/y', '/a?b=c', 'http://h/p', '\xe9']
+RL_VERSIONS = ['HTTP/1.1', 'HTTP/1.0', 'HTTP/0.9', 'HTTP/2.0', 'HTTP/1.10', 'HTTP/01.1', 'HTTP/1', 'HTTP/1.1.1', 'HTTP/a.b',
+               'HTTP/\xb2.0', 'http/1.1', 'HTTP/1.12345678901', 'HTTP/3', 'FOO/1.1', 'HTTP/1.', 'HTTP/.1', 'HTTP/+1.1',
+               'HTTP/1.-1', 'HTTP/12345678901.0', 'HTTP/0.0', 'HTTP/1.99', 'HTTP//1.1', 'HTTP/1.1/', 'HTTP/9999999999.0']
+RL_SEPS = [' ', ' ', ' ', '  ', '\t', '\x0b', '\xa0', '\x1c', ' \r ']
+RL_ENDS = ['\r\n', '\r\n', '\n', '\r\r\n', '']
+
+
+def gen_request_line(rng):
+    r = rng.random()
+    if r < 0.03:
+        return rng.choice(['\r\n', '\n', ' \r\n', '\t\t\n'])
+    if r < 0.05:
+        return 'POST /' + 'a' * rng.choice([65000, 65529, 65530, 65531, 70000]) + ' HTTP/1.1\r\n'
+    words = [rng.choice(RL_METHODS + ['POST', 'POST']), rng.choice(RL_TARGETS),
+             rng.choice(['HTTP/1.1', 'HTTP/1.0', 'HTTP/0.9']) if rng.random() < 0.55 else rng.choice(RL_VERSIONS)]
+    n = rng.choice([1, 2, 2, 3, 3, 3, 3, 3, 4, 5])
+    if n <= 3:
+        words = words[:n]
+    else:
+        words = words[:2] + [rng.choice(['x', 'HTTP/1.1', '/'])] * (n - 3) + [words[2]]
+    line = (rng.choice(['', '', '', ' ']) + ''.join(w + rng.choice(RL_SEPS) for w in words[:-1]) + words[-1]
+            + rng.choice(['', '', ' ']) + rng.choice(RL_ENDS))
+    return line
+
+
+def classify_wire(buf):
+    if not buf:
+        return ['silent']
+    if buf.startswith(b'HTTP/'):
+        rsp, problem = parse_response(buf)
+        if rsp is None:
+            return ['malformed', problem]
+        return ['status' if hget(rsp['headers'], 'CIMExport') else 'stdlib', rsp['status']]
+    m = re.search(rb'Error code: (\d+)', buf)
+    if m:
+        return ['bare', int(m.group(1))]
+    if buf.startswith(b'<?xml'):
+        return ['barebody']
+    return ['other', b64(buf[:80])]
+
+
+def request_line_k(run):
+    """http.server's handle_one_request/parse_request in front of the handler: Model serve vs one real listener"""
+    rng = run.rng
+    n = 1500 if run.thorough else 220
+    sess = Session(None, False)
+    try:
+        inst_xml = '<INSTANCE CLASSNAME="C"/>'
+        body = (XMLDECL + ser(envelope(inst_xml, msgid='7'))).encode('utf-8')
+        reqs, real, lines = [], [], []
+        for i in range(n):
+            line = gen_request_line(rng)
+            full = rng.random() < 0.35            # a complete valid indication behind the line, else only a Host header
+            if full:
+                hdrs = [['Host', 'x'], ['Content-Type', 'text/xml'], ['Content-Length', str(len(body))]]
+                payload = body
+            else:
+                hdrs = [['Host', 'x']]
+                payload = b''
+            raw = line.encode('latin-1')
+            if not line.endswith('\n'):
+                raw_all = raw               # no line end: the line is all the peer sends
+                hdrs_m, payload_m = [], b''
+            else:
+                raw_all = raw + ''.join('%s: %s\r\n' % kv for kv in map(tuple, hdrs)).encode('latin-1') + b'\r\n' + payload
+                hdrs_m, payload_m = hdrs, payload
+            st, buf = exchange(sess.port, raw_all)
+            got = ['blocked'] if st == 'timeout' else classify_wire(buf)
+            an = analyse(payload_m)
+            reqs.append({'op': 'serve', 'line': common.cps(line), 'hdrfault': False, 'method': common.cps('POST'),
+                         'headers': [[common.cps(k), common.cps(v)] for k, v in hdrs_m], 'blen': len(payload_m),
+                         'k': len(payload_m), 'tree': an['tree'], 'xmlexc': an['xmlexc'], 'msg': common.cps(an['msg']),
+                         'foreign': an['foreign'], 'exctext': common.cps(an['exctext']), 'codec': an['codec'], 'inst': 'ok',
+                         'alloc': ALLOC_LIMIT})
+            real.append(got)
+            lines.append(line)
+        answers = common.run_driver(PROP, reqs)
+        for line, a, r in zip(lines, answers, real):
+            run.case({'unit': 'serve', 'line': line[:200]}, nontrivial=True)
+            run.count('serve:' + str(r[0]) + (':%s' % r[1] if len(r) > 1 and isinstance(r[1], int) else ''))
+            if a.get('out') != r:
+                run.disagree({'unit': 'serve', 'line': line[:300]}, a.get('out'), r, 'request line (http.server parse_request)')
+            if r[0] in ('blocked', 'malformed', 'other'):
+                run.violate({'kind': 'request_line_' + r[0], 'intent': 'raw', 'method': 'other'},
+                            {'cap': None, 'gated': False, 'events': [{'ev': 'raw', 'bytes': b64(line.encode('latin-1'))}]},
+                            {'got': r})
+    finally:
+        sess.stop()
+
+
 def unit_k(run):
     """_ascii2, quote, findall patterns, int(): model function vs the real function on generated strings"""
     import pywbem._listener as L
@@ -1198,7 +1306,7 @@ def for_driver(model_req, mode):
     outcomes of the real parse_instance per INSTANCE subtree instead of the shared decoder"""
     evs = []
     for e in model_req['events']:
-        e2 = {k: v for k, v in e.items() if k not in ('inst_real', 'hex')}
+        e2 = {k: v for k, v in e.items() if k not in ('inst_real', 'hex', '_src')}
         if e2.get('ev') == 'req':
             if mode == 'par' and 'hex' in e and not PAR_OUT_OF_SCOPE.search(bytes.fromhex(e['hex'])):
                 # documents outside the declared scope of XmlParse.par (DOCTYPE, processing instructions, encodings
@@ -1278,8 +1386,7 @@ def compare_session(run, res, ans, second=False):
             for kv in m2['rsp']['headers']:
                 kv[1] = common.cps(common.from_cps(kv[1]).strip(' \t'))
         if m2 != r:
-            nreq = len([e for e in evs[:i + 1] if e['ev'] == 'req'])
-            src_ev = case['events'][res['req_src'][nreq - 1]]
+            src_ev = case['events'][evs[i].get('_src', 0)]
             src_ev = src_ev.get('spec', src_ev)
             run.disagree({'cap': case['cap'], 'request_no': i, 'method': evs[i].get('method'),
                           'headers': evs[i].get('headers'), 'body': src_ev.get('body')}, m2, r, 'response')
@@ -1336,6 +1443,7 @@ def run(run):
             run.violate(v['sig'], mini, v['observed'])
     run.extra['sessions_wall_s'] = round(time.time() - t0, 1)
     unit_k(run)
+    request_line_k(run)
 
 
 def oracle_only(run):
